@@ -121,6 +121,7 @@ class UBXMessage:
 
         offset = 0  # payload offset in bytes
         index = []  # array of (nested) group indices
+        anam = ""  # attribute being processed (for error messages)
 
         try:
             if len(kwargs) == 0:  # if no kwargs, assume null payload
